@@ -191,15 +191,33 @@ func RunLong(w *World, o LongOpts) error {
 				d.proposeOn(n, &ot, "racer's overdrawing tentative tip")
 			}
 			if o.Interrupt && k == 0 && n.Idx == 0 {
+				// a tentative tip on one of the oldest vertices: whatever happens below the cut, its declared parent must
+				// stay live or checkpointed
+				if s := n.Prev; s != nil {
+					var old H
+					var oldW uint64 = ^uint64(0)
+					for h, l := range s.Live {
+						if l.V.Weight >= 4 && l.V.Weight < oldW {
+							old, oldW = h, l.V.Weight
+						}
+					}
+					if oldW != ^uint64(0) {
+						st := w.NewTrx(w.Users[0], w.Users[1].Addr, spice.Melange{SupplementaryCurrency: 2}, []byte("side tip"))
+						sv := ForgeVertex(w.Sealers[0], st, old, old, oldW+1, w.Now())
+						if w.Deliver(n, &sv, "side tip on an old vertex") == nil {
+							d.noteSealed(&sv)
+						}
+					}
+				}
 				// the walk starts from whichever tip the map iteration yields; from a short side tip nothing happens:
 				// repeat until an attempt really was interrupted, and afterwards until an attempt from the main tip ran
 				fired := false
-				for a := 0; a < 12 && !fired; a++ {
+				for a := 0; a < 40 && !fired; a++ {
 					fired = w.TruncateInterrupted(n, d, 1+w.R.Intn(40))
 				}
 				if fired {
 					d.grow(20+w.R.Intn(40), 0)
-					for a := 0; a < 10; a++ {
+					for a := 0; a < 30; a++ {
 						before := len(n.Prev.Stored)
 						w.LastTruncateErr = nil
 						w.TruncateChecked(n, d, false)
